@@ -108,16 +108,29 @@ class Taint:
         self.extra = tuple(extra_transparent)
         # reference aliases: local holding `&[mut] place` → root local of place
         self.ref_of = {}
-        for b in body.blocks:
-            for s in b["stmts"]:
-                rv = s["rv"]
-                if rv["k"] in ("ref", "rawptr") and len(s["d"]) == 1:
-                    self.ref_of.setdefault(s["d"][0], set()).add(rv["p"][0])
-                elif rv["k"] == "use" and len(s["d"]) == 1 and rv["a"][0] in ("cp", "mv") and len(rv["a"][1]) == 1:
-                    # plain move/copy of a reference keeps the alias
-                    src = rv["a"][1][0]
-                    if src in self.ref_of:
-                        self.ref_of.setdefault(s["d"][0], set()).update(self.ref_of[src])
+        changed = True
+        while changed:
+            changed = False
+            for b in body.blocks:
+                for s in b["stmts"]:
+                    rv = s["rv"]
+                    if len(s["d"]) != 1:
+                        continue
+                    cur = self.ref_of.get(s["d"][0], set())
+                    add = set()
+                    if rv["k"] in ("ref", "rawptr"):
+                        add.add(rv["p"][0])
+                        # re-borrow `&mut (*r)`: also an alias of whatever r refers to
+                        if len(rv["p"]) >= 2 and rv["p"][1] == "*" and rv["p"][0] in self.ref_of:
+                            add |= self.ref_of[rv["p"][0]]
+                    elif rv["k"] == "use" and rv["a"][0] in ("cp", "mv") and len(rv["a"][1]) == 1:
+                        # plain move/copy of a reference keeps the alias
+                        src = rv["a"][1][0]
+                        if src in self.ref_of:
+                            add |= self.ref_of[src]
+                    if not add <= cur:
+                        self.ref_of[s["d"][0]] = cur | add
+                        changed = True
 
     def closure(self, seeds, stop_at=()):
         t = set(seeds)
@@ -555,3 +568,72 @@ def locals_of_type(body, needle, exact=False):
         if (t == needle) if exact else (needle in t):
             out.add(int(k))
     return out
+
+
+def whole_uses(body, seeds):
+    """(whole_aliases, whole_call_blocks, projected_fields): locals that hold the seed value *whole* (copies, references,
+    re-borrows, unsizing casts — no field projection), the call blocks receiving such a local as an argument, and the field
+    names read through projections of those aliases (a value used only through `x.field` is covered in part)."""
+    W = set(seeds)
+    fields = set()
+    changed = True
+    while changed:
+        changed = False
+        for b in body.blocks:
+            if b["cleanup"]:
+                continue
+            for st in b["stmts"]:
+                if len(st["d"]) != 1 or st["d"][0] in W:
+                    continue
+                rv = st["rv"]
+                p = None
+                if rv["k"] in ("use", "cast") and rv["a"][0] in ("cp", "mv"):
+                    p = rv["a"][1]
+                elif rv["k"] in ("ref", "rawptr"):
+                    p = rv["p"]
+                if p is None or p[0] not in W:
+                    continue
+                proj = [e for e in p[1:] if e != "*"]
+                if not proj:
+                    W.add(st["d"][0])
+                    changed = True
+    calls = []
+    for b in body.blocks:
+        if b["cleanup"]:
+            continue
+        for st in b["stmts"]:
+            rv = st["rv"]
+            p = rv["a"][1] if rv["k"] in ("use", "cast") and rv["a"][0] in ("cp", "mv") else rv.get("p") if rv["k"] in ("ref", "rawptr", "discr", "len") else None
+            if p and p[0] in W:
+                fs = [e[1:] for e in p[1:] if e.startswith(".")]
+                if fs:
+                    fields.add(fs[0])
+        t = b["term"]
+        if t["k"] == "call":
+            for a in t["args"]:
+                if a[0] in ("cp", "mv") and a[1][0] in W:
+                    if all(e == "*" for e in a[1][1:]):
+                        calls.append(b)
+                    else:
+                        fs = [e[1:] for e in a[1][1:] if e.startswith(".")]
+                        if fs:
+                            fields.add(fs[0])
+    return W, calls, fields
+
+
+def whole_value_reaches(body, seeds, targets=(0,)):
+    """Does the seed value, taken whole, flow (through calls, including into `&mut` arguments) to one of `targets`?"""
+    W, calls, fields = whole_uses(body, seeds)
+    ta = Taint(body, through="all")
+    if W & set(targets):
+        return True, fields
+    for b in calls:
+        t = b["term"]
+        start = {t["d"][0]}
+        for a in t["args"]:
+            l = op_local(a)
+            if l is not None and "&mut" in body.locals.get(str(l), ""):
+                start |= ta.ref_of.get(l, set())
+        if ta.closure(start) & set(targets):
+            return True, fields
+    return False, fields
